@@ -12,6 +12,7 @@ import (
 
 	"verif/sa/internal/load"
 	"verif/sa/internal/oblig"
+	"verif/sa/internal/pathx"
 )
 
 // AccessPath renders an SSA value as a path of field selections, getter calls and accessor calls
@@ -385,6 +386,11 @@ func CheckBeforeInsert(p *load.Prog, r *oblig.Report, rule string, specs []Table
 							}
 						}
 					}
+					if !okStore && insertCheckedOnPaths(cands[0], sp.MapPath) {
+						// the lookup lives in a helper (a generic "is declared" predicate): decided on the enumerated paths
+						r.OK(rule, construct, p.Pos(mu.Pos()), "paths: lookup+notify", "key "+key)
+						continue
+					}
 					if okStore {
 						r.OK(rule, construct, p.Pos(mu.Pos()), "dominating-lookup+notify", "key "+key)
 					} else {
@@ -459,6 +465,10 @@ func ConditionDeclared(p *load.Prog, r *oblig.Report, rule string) {
 						}
 					}
 				}
+			}
+			if !okStore && conditionCheckedOnPaths(fn, st) {
+				r.OK(rule, construct, p.Pos(st.Pos()), "paths: lookup+notify", "key "+AccessPath(nameVal))
+				continue
 			}
 			if okStore {
 				r.OK(rule, construct, p.Pos(st.Pos()), "dominating-lookup+notify", "key "+AccessPath(nameVal))
@@ -747,6 +757,7 @@ func ListenerWiring(p *load.Prog, r *oblig.Report, rule string) {
 	model, errl := unwrap(rets[0].Results[0]), unwrap(rets[0].Results[1])
 	added := map[string]bool{}
 	removed := map[string]bool{}
+	removedAfter := map[string]bool{}
 	walked := false
 	// ParseDSL and the helpers of its package it reaches, in call order (a helper's body stands where it is called)
 	var visit func(f *ssa.Function, depth int)
@@ -804,6 +815,9 @@ func ListenerWiring(p *load.Prog, r *oblig.Report, rule string) {
 					if kind != "" && !added[kind] {
 						removed[kind] = true
 					}
+					if kind != "" && added[kind] {
+						removedAfter[kind] = true
+					}
 				case "Walk":
 					if len(args) == 2 && unwrap(args[0]) == model {
 						if c, ok := unwrap(args[1]).(*ssa.Call); ok {
@@ -822,10 +836,11 @@ func ListenerWiring(p *load.Prog, r *oblig.Report, rule string) {
 		switch {
 		case !added[kind]:
 			r.Bad(rule, construct, p.Pos(fn.Pos()), "the error listener returned by ParseDSL is not added to the "+kind+": its errors never reach the caller")
-		case !removed[kind]:
-			r.Bad(rule, construct, p.Pos(fn.Pos()), "the default error listeners of the "+kind+" are not removed before the collecting listener is added")
+		case removedAfter[kind]:
+			r.Bad(rule, construct, p.Pos(fn.Pos()), "the error listeners of the "+kind+" are removed again after the collecting listener was added: its errors never reach the caller")
 		default:
-			r.OK(rule, construct, p.Pos(fn.Pos()), "call-sites", "RemoveErrorListeners then AddErrorListener(returned listener)")
+			// whether the default (console) listeners are removed first does not matter for what is returned
+			r.OK(rule, construct, p.Pos(fn.Pos()), "call-sites", fmt.Sprintf("AddErrorListener(returned listener), not removed afterwards (default listeners removed first: %v)", removed[kind]))
 		}
 	}
 	if walked {
@@ -1104,4 +1119,113 @@ func OnlyRuntimeReportsSyntaxErrors(p *load.Prog, r *oblig.Report, rule string) 
 	if n == 0 {
 		r.OK(rule, "error-source", p.Pos(se.Pos()), "who-may-call", fmt.Sprintf("%d functions of the package scanned: SyntaxError is reached only through the runtime, Errors is written only by it and the constructor", len(seen)))
 	}
+}
+
+// insertCheckedOnPaths: on every enumerated path of the callback (helpers followed) on which the table is written at
+// key K, a lookup of that same key in that same table was branched on before, and on the paths on which it found an
+// entry the error listeners were notified.
+func insertCheckedOnPaths(fn *ssa.Function, mapPath string) bool {
+	ex := &pathx.Explorer{Root: fn, MaxPaths: 20000}
+	paths := ex.Explore()
+	if ex.Overflow || len(paths) == 0 {
+		return false
+	}
+	tail := mapPath[strings.Index(mapPath, ".")+1:] // without the receiver's name
+	updates := 0
+	for _, pt := range paths {
+		for _, ev := range pt.Events {
+			mu, ok := ev.Instr.(*ssa.MapUpdate)
+			if !ok {
+				continue
+			}
+			table := pt.Render(ev.Term(mu.Map))
+			if !strings.HasSuffix(table, "."+tail) {
+				continue
+			}
+			updates++
+			slot := table + "[" + pt.Render(ev.Term(mu.Key)) + "]"
+			looked, present := false, false
+			for _, f := range pt.Facts(ev.NCond) {
+				switch {
+				case f.Atom == slot+" == nil":
+					looked, present = true, !f.Value
+				case f.Atom == slot+"#1":
+					looked, present = true, f.Value
+				}
+			}
+			if !looked {
+				return false
+			}
+			if present {
+				notified := false
+				for _, e2 := range pt.Events {
+					if e2.Seq < ev.Seq || true {
+						if isNotifyCall(e2.Instr) {
+							notified = true
+						}
+					}
+				}
+				if !notified {
+					return false
+				}
+			}
+		}
+	}
+	return updates > 0
+}
+
+// conditionCheckedOnPaths: on every enumerated path of EnterCondition (helpers followed) that reaches the creation of
+// the condition object, the condition table was looked up at the name the object gets, and the paths on which an
+// entry was found notified the error listeners.
+func conditionCheckedOnPaths(fn *ssa.Function, create *ssa.Store) bool {
+	ex := &pathx.Explorer{Root: fn, MaxPaths: 20000}
+	paths := ex.Explore()
+	if ex.Overflow || len(paths) == 0 {
+		return false
+	}
+	reached := 0
+	for _, pt := range paths {
+		for _, ev := range pt.Events {
+			if ev.Instr != ssa.Instruction(create) {
+				continue
+			}
+			reached++
+			// the name the new object is given
+			lit := pt.Resolve(ev.Term(create.Val))
+			name := ""
+			if fv, ok := pt.Fields(lit)["Name"]; ok {
+				name = pt.Render(fv)
+			}
+			if name == "" {
+				return false
+			}
+			looked, present := false, false
+			for _, f := range pt.Facts(ev.NCond) {
+				if !strings.Contains(f.Atom, ".Conditions["+name+"]") {
+					continue
+				}
+				switch {
+				case strings.HasSuffix(f.Atom, "] == nil"):
+					looked, present = true, !f.Value
+				case strings.HasSuffix(f.Atom, "]#1"):
+					looked, present = true, f.Value
+				}
+			}
+			if !looked {
+				return false
+			}
+			if present {
+				notified := false
+				for _, e2 := range pt.Events {
+					if isNotifyCall(e2.Instr) {
+						notified = true
+					}
+				}
+				if !notified {
+					return false
+				}
+			}
+		}
+	}
+	return reached > 0
 }
